@@ -626,6 +626,7 @@ class Project:
                     else:
                         out.append([pv] + [self.print_spec(s, v[1], False) for s in specs])
                 else:
+                    n_before = len(out)
                     if specs == "fallback":
                         out.append({"value": pv} if self.style.get("bare_fallback", True) else {"count": "_", "value": pv})
                     elif self.style.get("pipe") == "tail" and len(specs) >= 2:
@@ -635,6 +636,15 @@ class Project:
                         out.append({"count": c, "value": pv})
                     else:
                         out.append({"count": [self.print_spec(s, v[1], False) for s in specs], "value": pv})
+                    # the fields of a map-form entry follow the key order of the writing too
+                    ent = out[n_before]
+                    if isinstance(ent, dict) and len(ent) == 2:
+                        flip = bool(self.style.get("reverse_keys"))
+                        if self.style.get("shuffle_keys") is not None:
+                            import random as _r
+                            flip = _r.Random("%s/entry/%d/%s" % (self.style["shuffle_keys"], i, json.dumps(ent.get("count"), default=str))).random() < 0.5
+                        if flip:
+                            out[n_before] = {"value": ent["value"], "count": ent["count"]}
             return out
         raise ValueError("cannot print %r" % (k,))
 
